@@ -34,7 +34,9 @@ from .evutil import BASE, dt, us_of_dt, us_of_td
 BACKENDS = ["memory", "sqlite", "peewee"]
 BACKEND_CODE = {"memory": 0, "sqlite": 1, "peewee": 2}
 ERR = {"KeyError": 4, "ValueError": 5, "IndexError": 6, "AttributeError": 7, "TypeError": 8,
-       "IntegrityError": 9}
+       "IntegrityError": 9,
+       # no model produces it (named so that a report says what was raised; 10 = any other class)
+       "UnicodeEncodeError": 11}
 ERRNAME = {v: k for k, v in ERR.items()}
 ERRNAME[10] = "other"
 MISSING_BUCKET = 7          # a bucket label no history ever creates
@@ -1129,6 +1131,20 @@ def describe(op):
     if op[0] == 13:
         return f"touch[caller sets .{TOUCH_FIELDS[op[1]]} of an Event object it holds := {op[2]}]"
     return OPNAME[op[0]] + str(op[1:])
+
+
+def rich_values(ops):
+    """{label: python repr of the concrete data} for every rich data label that occurs in the wire ops (replay files)"""
+    found = set()
+
+    def walk(x):
+        if isinstance(x, list):
+            for y in x:
+                walk(y)
+        elif isinstance(x, int) and not isinstance(x, bool) and x in RICH:
+            found.add(x)
+    walk(ops)
+    return {str(n): repr(data_of(n)) for n in sorted(found)}
 
 
 def main(argv):
